@@ -44,6 +44,10 @@ pub uninterp spec fn elems_spec(p: Parser, is_after: bool) -> (Result<Vec<Item>,
         r is Ok ==> 1 <= final(self).pos <= final(self).token_list@.len() && final(self).pos < usize::MAX - 2,
         // ASSUMED frame: it only moves the cursor
         final(self).token_list == old(self).token_list && final(self).group == old(self).group && final(self).line == old(self).line,
+        // ASSUMED: it moves the cursor with advance() only, so past the list the current token is the synthetic end of line
+        r is Ok ==> (final(self).pos < final(self).token_list@.len() || final(self).curr_tkn.kind == TokenKind::Eol),
+        // ASSUMED (read off the code: ExpectedArrow / ExpectedEndLine are constructed in Parser::rule only)
+        r matches Err(e) ==> !(e is ExpectedEndLine) && !(e is ExpectedArrow),
 //@ end
 
 //@ contract Position::new ret=r
@@ -82,4 +86,9 @@ pub uninterp spec fn elems_spec(p: Parser, is_after: bool) -> (Result<Vec<Item>,
             final(self).pos == old(self).pos && final(self).token_list == old(self).token_list),
         /*#specenv.element_errors_are_returned C12*/ r matches Err(e) ==> (
             exists|p2: Parser| p2.pos == old(self).pos + 2 && (#[trigger] elems_spec(p2, false)).0 == Err::<Vec<Item>, RuleSyntaxError>(e)),
+        // frame and cursor facts the environment-list parser (kernel envlist) builds on
+        final(self).token_list == old(self).token_list && final(self).group == old(self).group && final(self).line == old(self).line,
+        (r is Ok && old(self).pos <= old(self).token_list@.len() && (old(self).pos < old(self).token_list@.len() || old(self).curr_tkn.kind == TokenKind::Eol))
+            ==> (final(self).pos <= final(self).token_list@.len() && (final(self).pos < final(self).token_list@.len() || final(self).curr_tkn.kind == TokenKind::Eol)),
+        r matches Err(e) ==> !(e is ExpectedEndLine) && !(e is ExpectedArrow),
 //@ end
